@@ -115,6 +115,52 @@ def features(body):
     return sorted(f)
 
 
+TYPE_TESTS = ("var", "nonvar", "atom", "atomic", "compound", "integer", "number", "float", "callable")
+
+
+def _flat_goals(b):
+    """goals of a body in code order, looking through , ; -> \\+ (not through call/N)"""
+    if type(b) is tuple and len(b) == 3 and b[0] in (",", ";", "->"):
+        return _flat_goals(b[1]) + _flat_goals(b[2])
+    if type(b) is tuple and len(b) == 2 and b[0] == "\\+":
+        return _flat_goals(b[1])
+    return [b]
+
+
+def _vars_of(t, acc):
+    if type(t) is V:
+        acc.add(t.n)
+    elif type(t) is tuple:
+        for a in t[1:]:
+            _vars_of(a, acc)
+
+
+def clause_features(clause):
+    """features of a clause; adds 'typetest_fresh_var' when an inlined type test is
+    applied to a variable whose first occurrence in the clause is that test"""
+    if type(clause) is tuple and clause[0] == ":-" and len(clause) == 3:
+        head, body = clause[1], clause[2]
+    else:
+        return []
+    f = set(features(body))
+    seen = set()
+    _vars_of(head, seen)
+    for g in _flat_goals(body):
+        if type(g) is tuple and len(g) == 2 and g[0] in TYPE_TESTS and type(g[1]) is V:
+            f.add("typetest")
+            if g[1].n not in seen:
+                f.add("typetest_fresh_var")
+        _vars_of(g, seen)
+    return sorted(f)
+
+
+def program_features(clauses):
+    f = set()
+    for c in clauses:
+        f.update(clause_features(c))
+    return sorted(f)
+
+
 def cut_in_cond(body):
     return any(x.startswith("cut_in_if_cond") for x in features(body))
 
@@ -128,8 +174,10 @@ A1_LEAVES_Q = [("q", S, S), ("r", S), ("=", S, S), ("=", S, ("f", S)), ("==", S,
                ("atom", S), ("var", S), "!", "fail"]
 A1_LEAVES_T = A1_LEAVES_Q + [("q", S, "c"), ("is", S, ("+", 1, 1)), ("<", S, 1), "true", ("call", "q", S, S)]
 A1_LEAVES_3 = [("q", S, S), ("r", S), ("=", S, S), "!"]
-A1_LEAVES_3T = [("q", S, S), ("r", S), ("=", S, S), "!", ("=", S, ("f", S)), ("atom", S), "fail"]
+A1_LEAVES_3T = [("q", S, S), ("r", S), ("=", S, S), "!", ("=", S, ("f", S)), "fail"]
+A1_LEAVES_4T = [("q", S, S), ("r", S), "!"]
 A1_HEADS_3 = [(S, S), (("f", S), S)]
+A1_HEADS_3T = [(S, S), (("f", S), S), ("c", S)]
 
 
 def a1_skeletons(tier):
@@ -144,11 +192,11 @@ def a1_skeletons(tier):
             for g2 in leaves:
                 out.append((h, [g1, g2], 4))
     l3 = A1_LEAVES_3T if tier == "thorough" else A1_LEAVES_3
-    for h in (A1_HEADS if tier == "thorough" else A1_HEADS_3):
+    for h in (A1_HEADS_3T if tier == "thorough" else A1_HEADS_3):
         for gs in itertools.product(l3, repeat=3):
             out.append((h, list(gs), 4 if tier == "thorough" else 3))
     if tier == "thorough":
-        for gs in itertools.product(A1_LEAVES_3, repeat=4):
+        for gs in itertools.product(A1_LEAVES_4T, repeat=4):
             out.append(((S, S), list(gs), 3))
     return out
 
@@ -172,7 +220,7 @@ def a1_programs(skel):
         t = fill(sk, iter([V(VARNAMES[i]) for i in pat]))
         body = t[2]
         yield {"fam": "A1", "clauses": [(":-", t[1], body), ("t", "z", "z")], "main": ("t", 2),
-               "queries": qs, "feat": features(body)}
+               "queries": qs, "feat": clause_features((":-", t[1], body))}
 
 
 # ---------------------------------------------------------------------------
@@ -251,9 +299,9 @@ def a2_programs(goals, tier):
     body = conj(goals)
     k = count_slots(body)
     # bound the per-skeleton fan-out: up to 5 slots all 4 names, above that 3 names (A, B, L)
-    if k <= (6 if tier == "thorough" else 5):
+    if k <= (5 if tier == "thorough" else 4):
         pool = ["A", "B", "L", "M"]
-    elif k <= (8 if tier == "thorough" else 7):
+    elif k <= (6 if tier == "thorough" else 5):
         pool = ["A", "B", "L"]
     else:
         pool = ["A", "L"]
@@ -346,6 +394,41 @@ def b_program(tree, ctx):
               (":-", ("h", X, Y), tree), ("h", "y", "y")]
     return {"fam": "B" + ("n" if ctx != "plain" else ""), "clauses": cl, "main": ("s", 2),
             "queries": B_QUERIES, "feat": features(tree)}
+
+
+# ---------------------------------------------------------------------------
+# family C: conjunctions containing a cut as the condition of if-then(-else),
+# under \\+ and under call/1 (the opaque positions of ISO 7.8)
+
+C_LEAVES = ["!", "fail", "true", ("r", X), ("=", X, "a")]
+C_BRANCH = ["true", ("=", Y, "b"), "fail"]
+
+
+def c_conds():
+    out = []
+    for n in (1, 2, 3):
+        for gs in itertools.product(C_LEAVES, repeat=n):
+            if "!" in gs:
+                out.append(conj(gs))
+    return out
+
+
+def c_bodies():
+    for c in c_conds():
+        for t in C_BRANCH:
+            yield ("->", c, t)
+            for e in C_BRANCH:
+                yield (";", ("->", c, t), e)
+                yield ("call", (";", ("->", c, t), e))
+        yield ("\\+", c)
+        yield ("call", c)
+        yield (",", ("r", Y), ("\\+", c))
+        yield (",", ("call", c), ("r", Y))
+
+
+def c_programs():
+    for b in c_bodies():
+        yield b_program(b, "plain")
 
 
 # ---------------------------------------------------------------------------
